@@ -72,6 +72,11 @@ def _shadow_deepcopy(self, memo):
     return new
 
 
+def _concrete_shadow(t):
+    import numpy as _np
+    return all(isinstance(v, (bool, int, _np.bool_, _np.integer)) for v in SH.get(t).reshape(-1))
+
+
 class SymMode(TorchDispatchMode):
     def __enter__(self):
         torch.Tensor.__deepcopy__ = _shadow_deepcopy
@@ -87,6 +92,11 @@ class SymMode(TorchDispatchMode):
         ins = list(tensors_in(args)) + list(tensors_in(kwargs))
         if not any(SH.has(t) for t in ins):
             return func(*args, **kwargs)
+        if not any(SH.has(t) and (t.is_floating_point() or not _concrete_shadow(t)) for t in ins):
+            # only masks / index tensors whose shadows hold concrete values: nothing symbolic flows through this op
+            mut = any(a.alias_info is not None and a.alias_info.is_write for a in func._schema.arguments)
+            if not mut:
+                return func(*args, **kwargs)
         STATS["symops"] += 1
         name = str(func)
         OPLOG[name] = OPLOG.get(name, 0) + 1
